@@ -689,6 +689,22 @@ pub const DEEP_CHAIN_ROOTS: &[(&str, u32, bool)] = &[
     ("BBK5/P3QP1n/1Ppp1PPN/pp1P1rr1/PbR2p1p/p1nkPq1R/4p1b1/3N4 w - - 0 1", 23, true),
 ];
 
+/// Games that end in a cross-check there-and-back (m1, m2+, m1^-1+): the search can run through the same
+/// cycle again below its horizon, every node of it in check, and meets a position of the game a third time
+/// there. Found offline with `wmc crosscheckfind` (105,000 such games among 30 million deterministic
+/// scrambles; these are the ones whose depth-3 value depends on nodes near the horizon being on the
+/// repetition record while their subtree is searched).
+pub const CROSS_CHECK_HISTORIES: &[&str] = &[
+    "position fen 1r1B4/rk1BK3/8/1B6/8/8/8/8 w - - 0 1 moves d7e8 b7c8 e8d7",
+    "position fen 1r1B4/rk1BK3/8/1B6/8/8/8/8 w - - 0 1 moves d7c6 b7c8 c6d7",
+    "position fen 8/8/1q5B/7r/1kb1K1Q1/8/8/2r2B2 b - - 0 1 moves c4d5 e4d3 d5c4",
+    "position fen 8/8/1q5B/7r/1kb1K1Q1/8/8/2r2B2 b - - 0 1 moves c4a2 e4d3 a2c4",
+    "position fen 2n2n2/8/8/8/8/8/1R5q/R1Kb3k b - - 0 1 moves d1e2 c1d2 e2d1",
+    "position fen r7/b6k/1r6/5K2/4n3/8/B1B5/8 b - - 0 1 moves e4d6 f5f6 d6e4",
+    "position fen 1B6/4b3/3b2bQ/8/5r2/4K3/8/2k5 b - - 0 1 moves f4g4 e3f3 g4f4",
+    "position fen 1B6/4b3/3b2bQ/8/5r2/4K3/8/2k5 b - - 0 1 moves f4c4 e3f2 c4f4",
+];
+
 /// Positions with a quiet mate in one next to a capture that mates in two through checks only (so that
 /// iteration 1, thanks to the check extension, already sees a mate score before it tries the mate in one):
 /// found offline with `wmc checkchainfind <n> -1` among 300,000 deterministic queen-heavy scrambles.
@@ -829,6 +845,12 @@ fn c12_roots(rep: &Report, h: &ZobristHasher) -> Vec<Root> {
     }
     for f in MATE_RACE_ROOTS {
         roots.push(fresh_root(&Pos::from_fen(f).expect("mate race fen"), h));
+    }
+    for c in CROSS_CHECK_HISTORIES {
+        if crate::e4_session::pos_of_command(c).is_none() {
+            crate::report::machinery_error(&format!("cross-check history {} is not a legal game", c));
+        }
+        roots.push(root_from_command(c, h));
     }
     // capture chains below the horizon of every length up to 22: one square attacked eight times and defended
     // eight times, a second one three against three, and every position obtained by taking away up to k of
@@ -1057,7 +1079,7 @@ pub fn run_c12(rep: &Report) -> i32 {
     if skipped.load(Ordering::Relaxed) > 0 {
         rep.note(format!("{} positions skipped because the unpruned reference exceeded {} nodes (not counted as explored)", skipped.load(Ordering::Relaxed), node_cap));
     }
-    let rule = "every root of: KQK/KRK complete families on a stride, the complete K+P v K family with the pawn one or two steps from promotion (both colours, both sides to move), the positions of the castling / en-passant / promotion families in which such a move gives check (on a stride), all move paths of length <= 2/3 from the low-material S1 roots (history preloaded through the real position command), the C07 roots, constructed repetition histories, the two-tower exchange position (one square attacked and defended eight times, one three times) with every set of <= 1/3 participants removed, dense 32-man roots whose value depends on captures up to 23 plies below the horizon (re-measured, see capture_chain_depth_coverage), queen-heavy roots whose value depends on check extensions up to ply 11 (see check_extension_depth_coverage); iterations 1..3 (1..2 above 10 pieces, 1 above 20); each reported (move, score) and each iteration's final score compared with plain negamax";
+    let rule = "every root of: KQK/KRK complete families on a stride, the complete K+P v K family with the pawn one or two steps from promotion (both colours, both sides to move), the positions of the castling / en-passant / promotion families in which such a move gives check (on a stride), all move paths of length <= 2/3 from the low-material S1 roots (history preloaded through the real position command), the C07 roots, constructed repetition histories, the two-tower exchange position (one square attacked and defended eight times, one three times) with every set of <= 1/3 participants removed, dense 32-man roots whose value depends on captures up to 23 plies below the horizon (re-measured, see capture_chain_depth_coverage), queen-heavy roots whose value depends on check extensions up to ply 11 (see check_extension_depth_coverage), games ending in a cross-check there-and-back whose value depends on the repetition record near the horizon; iterations 1..3 (1..2 above 10 pieces, 1 above 20); each reported (move, score) and each iteration's final score compared with plain negamax";
     rep.finish(searched.load(Ordering::Relaxed), ref_nodes.load(Ordering::Relaxed), lines.load(Ordering::Relaxed), skipped.load(Ordering::Relaxed) == 0, rule)
 }
 
@@ -1282,4 +1304,110 @@ pub fn checkchainfind(count: usize, min_ply: i32) {
     for (deepest, d, f) in v {
         println!("{} {} {}", deepest, d, f);
     }
+}
+
+
+/// Development aid (`wmc crosscheckfind <count>`): deterministic scrambles of two kings and up to eight
+/// queens/rooks/bishops/knights; every there-and-back game  m1, m2+, m1^-1+  in which the reply gives check
+/// and the retreat answers it with a check of its own (a cross-check cycle that the search can run through
+/// again below its horizon). Prints the position commands whose depth-3 value changes when the reference
+/// leaves nodes with less than three plies of remaining depth off the repetition record.
+pub fn crosscheckfind(count: usize) {
+    let h = ZobristHasher::create_zobrist_hasher();
+    let found = std::sync::Mutex::new(Vec::<String>::new());
+    let shapes = AtomicU64::new(0);
+    let idx = AtomicUsize::new(0);
+    std::thread::scope(|s| {
+        for _ in 0..threads() {
+            s.spawn(|| loop {
+                let i = idx.fetch_add(1, Ordering::Relaxed);
+                if i >= count {
+                    break;
+                }
+                let mut x: u64 = 0xA0761D6478BD642Fu64.wrapping_mul(i as u64 + 1) ^ 0xE7037ED1A0B428DB;
+                let mut next = || {
+                    x ^= x << 13;
+                    x ^= x >> 7;
+                    x ^= x << 17;
+                    x
+                };
+                let mut p = Pos::empty();
+                let kinds = [rules::Q, rules::R, rules::B, rules::N, rules::R, rules::B];
+                let mut men: Vec<u8> = vec![rules::pc(rules::WHITE, rules::K), rules::pc(rules::BLACK, rules::K)];
+                for c in [rules::WHITE, rules::BLACK] {
+                    for _ in 0..(2 + next() % 3) {
+                        men.push(rules::pc(c, kinds[(next() % 6) as usize]));
+                    }
+                }
+                for &m in &men {
+                    loop {
+                        let sq = (next() % 64) as u8;
+                        if p.b[sq as usize] == rules::EMPTY {
+                            p.b[sq as usize] = m;
+                            break;
+                        }
+                    }
+                }
+                p.stm = if next() % 2 == 0 { rules::WHITE } else { rules::BLACK };
+                if !p.is_legal_position() || p.in_check(p.stm) {
+                    continue;
+                }
+                for m1 in p.legal_moves() {
+                    if p.is_capture(&m1) || m1.promo != 0 {
+                        continue;
+                    }
+                    let g1 = p.make(&m1);
+                    for m2 in g1.legal_moves() {
+                        if g1.is_capture(&m2) || m2.promo != 0 {
+                            continue;
+                        }
+                        let g2 = g1.make(&m2);
+                        if !g2.in_check(g2.stm) {
+                            continue; // the reply must give check
+                        }
+                        let back = Mv { from: m1.to, to: m1.from, promo: 0 };
+                        if !g2.legal_moves().contains(&back) {
+                            continue;
+                        }
+                        let g3 = g2.make(&back);
+                        if !g3.in_check(g3.stm) {
+                            continue; // the retreat must give check itself
+                        }
+                        let back2 = Mv { from: m2.to, to: m2.from, promo: 0 };
+                        if !g3.legal_moves().contains(&back2) {
+                            continue;
+                        }
+                        shapes.fetch_add(1, Ordering::Relaxed);
+                        let cmd = format!("position fen {} moves {} {} {}", p.fen(), m1.uci(), m2.uci(), back.uci());
+                        let root = root_from_command(&cmd, &h);
+                        let succs = crate::move_generation::generate_moves(&root.board, crate::move_generation::MoveGenerationMode::AllMoves, &h);
+                        let value = |min_depth: u8| -> Option<i32> {
+                            let mut r = Ref::new(&h, 5_000_000);
+                            r.record_min_depth = min_depth;
+                            let mut table = root.table.clone();
+                            let mut best = i32::MIN;
+                            for c in &succs {
+                                let v = -r.alphabeta(c, 2, 1, -10_000_000, 10_000_000, &mut table);
+                                if r.capped {
+                                    return None;
+                                }
+                                best = best.max(v);
+                            }
+                            Some(best)
+                        };
+                        if let (Some(a), Some(b)) = (value(0), value(3)) {
+                            if a != b {
+                                found.lock().unwrap().push(format!("{} {} | {}", a, b, cmd));
+                            }
+                        }
+                    }
+                }
+            });
+        }
+    });
+    let v = found.into_inner().unwrap();
+    for l in &v {
+        println!("{}", l);
+    }
+    eprintln!("{} cross-check there-and-back games, {} of them sensitive", shapes.load(Ordering::Relaxed), v.len());
 }
